@@ -1,19 +1,28 @@
 """C09 — jump-ratio XRF cross sections = photo cross section x jump share x yield x rate."""
-import math
+import math, json, os
 from vlib.runner import Check
 from vlib import core
 from vlib.core import hx, unhx
 
 FNS = ['CS_FluorShell', 'CSb_FluorShell', 'CS_FluorLine', 'CSb_FluorLine']
+L3O45, L3O4, L3O5 = -102, -101, -103          # the doublet slot and its members (include/xraylib-lines.h; checked against Hdr below)
 
 class C09(Check):
     id = 'C09'
     module = 'Xrl.Props.C09'
     namespace = 'Xrl.C09'
+    # C09b: L-beta with every member once (under the executed condition "no rate for the doublet slot L3O45 AND one of its members"),
+    # the cross sections as (whatever CS_Photo returns) x factor for EVERY photo table (the hybrid oracle for Z = 96), a witness
+    # on which fluorshell_jump_spec / fluorline_jump_spec yield a value
+    extra_modules = [('Xrl.Props.C09b', 'Xrl.C09')]
     functions = FNS + ['Jump_from_K', 'Jump_from_L1', 'Jump_from_L2', 'Jump_from_L3']
     assumptions = ['theorems assume the shape of the photo table (vecOkB) and the edge-order invariant edgeOrderB (E_L1 >= E_L2 >= E_L3 among present edges, no gap, yield => edge); '
-                   'both are executed on the dumped tables on every run (spec.shapeFailures / spec.edgeOrderFailures must be empty, up to the known Photo:96 entry)',
-                   'the L-beta sum uses the 15-line list of cs_line.c (13 of kissel_pe.c + L3O4 + L3O5); on tables carrying rates for the doublet slot L3O45 AND its members it would double-count — the shipped radrate.dat carries only the slot (lb_members_vs_kissel)']
+                   'both are executed on the dumped tables on every run (spec.edgeOrderFailures must be empty; spec.shapeFailures must not name a photo table other than the known Photo:96)',
+                   'where vecOkB fails (Z = 96) the theorems fluorshell_factorises / fluorline_factorises / fluorline_LB_factorises need no shape hypothesis: the search compares with '
+                   'library CS_Photo x spec.shellFactorOf / spec.lineFactor there, at every energy including the span of the two out-of-order knots',
+                   'the L-beta sum uses the 15-line list of cs_line.c (13 of kissel_pe.c + L3O4 + L3O5): on a table carrying a rate for the doublet slot L3O45 AND for one of its members it counts '
+                   'that transition twice.  fluorline_LB_once holds under lbDoubleCountB = false, which is executed on every run: spec.lbDoubleCount must be [], the public RadRate must not report '
+                   'a rate for L3O45 and for L3O4/L3O5 of the same element, and every L-beta call is also compared with the once-counted sum (spec.CS_FluorLine_LBonce)']
 
     def edges(self, ctx):
         if hasattr(ctx, '_e09'): return ctx._e09
@@ -24,18 +33,43 @@ class C09(Check):
         ctx._e09 = e
         return e
 
+    def photo_knots(self, ctx):
+        """Z -> abscissae ln(1000 E) of the photo table, from the dumped tables"""
+        if hasattr(ctx, '_k09'): return ctx._k09
+        try: out = ctx.run_model(['vec E_Photo_arr %d' % Z for Z in range(1, 121)])
+        except core.BuildError: out = []
+        ctx._k09 = {Z: [unhx(t) for t in o.split(' ')[1:] if t] for Z, o in zip(range(1, 121), out)}
+        return ctx._k09
+
+    def bad_spans(self, xs):
+        """energy spans (keV) around out-of-order knot pairs of a photo table: there the bracketing interval, hence CS_Photo, is undefined"""
+        sp = []
+        for k in range(len(xs) - 1):
+            if xs[k + 1] < xs[k]:                  # the inverted pair itself: below xs[k+1] and above xs[k] every bracketing rule agrees
+                sp.append((math.exp(xs[k + 1] - 1e-9) / 1000.0, math.exp(xs[k] + 1e-9) / 1000.0))
+        return sp
+
     def points(self, ctx):
         if hasattr(ctx, '_p09'): return ctx._p09
         e = self.edges(ctx); r = ctx.rng
+        kn = self.photo_knots(ctx)
         step = 1 if ctx.tier == 'thorough' else 3; off = r.randrange(step)
         pts = []
         lines = [0, 1, 2, 3, 4, -1, -2, -3, -4, -16, -29, -30, -31, -43, -58, -59, -60, -63, -85, -86, -89, -90, -95, -102, -113, -114, -120, -383, 7]
-        for Z in list(range(1 + off, 121, step)) + [0, -1, 121]:
+        Zs = list(range(1 + off, 121, step)) + [0, -1, 121]
+        if 96 not in Zs: Zs.append(96)           # curium is judged by the hybrid oracle in every run
+        for Z in Zs:
             Es = {0.0, -1.0, 0.3, 1.0, 5.0, 20.0, 80.0, 150.0, 900.0}
             for s in range(4):
                 ed = e.get((Z, s), 0.0)
                 if ed > 0:
                     for f in (1 - 1e-9, 1.0, 1 + 1e-9, 1.02, 0.98): Es.add(ed * f)
+            xs = kn.get(Z, [])
+            if len(xs) >= 2:                       # both ends of the photo table
+                for x, fs in ((xs[0], (1 - 1e-9, 1.0, 1 + 1e-9)), (xs[-1], (1 - 1e-9, 1.0, 1 + 1e-6))):
+                    for f in fs: Es.add(math.exp(x) / 1000.0 * f)
+                for lo, hi in self.bad_spans(xs):  # inside and on both sides of a span of out-of-order knots
+                    for E in (lo * (1 - 1e-6), lo, 0.5 * (lo + hi), math.sqrt(lo * hi), hi, hi * (1 + 1e-6)): Es.add(E)
             Es = sorted(Es)
             for E in Es:
                 for sh in range(-1, 6): pts.append(('Shell', Z, sh, E))
@@ -51,33 +85,99 @@ class C09(Check):
         return out + [l[:-1] + 'N' for l in out[::11]]
 
     def search(self, ctx):
-        cl = []; sl = []
+        cl = []; sl = []; fl = []; pl = []
         for k, Z, x, E in self.points(ctx):
             for pre in ('CS', 'CSb'):
                 cl.append('%s_Fluor%s %d %d %s E' % (pre, k, Z, x, hx(E))); sl.append('spec.%s_Fluor%s %d %d %s' % (pre, k, Z, x, hx(E)))
+                fl.append('spec.%s %d %d %s' % ('shellFactorOf' if k == 'Shell' else 'lineFactor', Z, x, hx(E)))
+                pl.append('CS_Photo %d %s E' % (Z, hx(E)))
         c = ctx.run_c(cl)
-        try: e = ctx.run_model(sl + ['spec.edgeOrderFailures', 'spec.lineShellNamesAgree', 'spec.shapeFailures'])
+        inv_ops = ['spec.edgeOrderFailures', 'spec.lineShellNamesAgree', 'spec.shapeFailures', 'spec.lbDoubleCount', 'spec.lbMemberRates']
+        try: e = ctx.run_model(sl + inv_ops)
         except core.BuildError: return 0, [], {'rule': 'specification driver unavailable'}
+        e_order, e_names, e_shape, e_dbl, e_mem = e[len(sl):]
         viol = []; stats = {}; nontriv = set()
-        if e[-3].strip() != 'list []':
-            viol.append(dict(key='edge-order', got=e[-3], expected='list []', what='edge-order data invariant fails on the tables of the working tree'))
-        if e[-2].strip() != 'bool true':
-            viol.append(dict(key='line-shell-map', got=e[-2], expected='bool true', what='line->shell ranges differ from the name-derived map'))
-        for l, co, eo in zip(cl, c, e):
+        if e_order.strip() != 'list []':
+            viol.append(dict(key='edge-order', got=e_order, expected='list []', what='edge-order data invariant fails on the tables of the working tree'))
+        if e_names.strip() != 'bool true':
+            viol.append(dict(key='line-shell-map', got=e_names, expected='bool true', what='line->shell ranges differ from the name-derived map'))
+        # ---- photo tables that violate vecOkB: only the ones recorded as a known finding of C02 are judged by the hybrid oracle; any other is new
+        known_shape = {k[0][len('shape:'):] for k in core.load_known_findings().get('C02', []) if k[0].startswith('shape:')}
+        bad_shape = set(x for x in e_shape[len('shape ['):-1].split(', ') if x)
+        badZ = set()
+        for sname in sorted(bad_shape):
+            if sname.startswith('Photo:'):
+                badZ.add(int(sname.split(':')[1]))
+                if sname not in known_shape:
+                    viol.append(dict(key='shape:' + sname, got='vecOkB false', expected='knots non-decreasing, count inside the vectors',
+                                     what='data hypothesis of the C09 theorems fails for a photo table that is not a recorded finding'))
+        kn = self.photo_knots(ctx)
+        spans = {Z: self.bad_spans(kn.get(Z, [])) for Z in badZ}
+        # ---- L-beta double count: the executable form of the hypothesis of fluorline_LB_once, on the tables and through the public RadRate
+        n_extra = 0
+        if e_dbl.strip() != 'list []':
+            viol.append(dict(key='lb-double-count', got=e_dbl, expected='list []', what='an element has a radiative rate for the doublet slot L3O45 and for one of its members L3O4 / L3O5: '
+                             'the 15-line L-beta sum of cs_line.c counts that transition twice (hypothesis of C09.fluorline_LB_once)'))
+        vals = json.load(open(ctx.sc.path('aux', 'hdr_vals.json')))
+        for nm, val in (('L3O45_LINE', L3O45), ('L3O4_LINE', L3O4), ('L3O5_LINE', L3O5)):
+            if vals[nm]['value'] != val: viol.append(dict(key='header:' + nm, got=str(vals[nm]['value']), expected=str(val), what='macro value used by the L-beta data check'))
+        rq = ['RadRate %d %d N' % (Z, ln) for Z in range(1, 121) for ln in (L3O45, L3O4, L3O5)]
+        rr = [core.parse_answer(o) for o in ctx.run_c(rq)]; n_extra += len(rq)
+        has = lambda p: p['kind'] == 'ok' and bool(p['vals']) and p['vals'][0] != 0
+        slot_Z = [Z for Z in range(1, 121) if has(rr[3 * (Z - 1)])]
+        memb_Z = [Z for Z in range(1, 121) if has(rr[3 * (Z - 1) + 1]) or has(rr[3 * (Z - 1) + 2])]
+        for Z in sorted(set(slot_Z) & set(memb_Z))[:5]:
+            l3 = self.edges(ctx).get((Z, 3), 0.0)
+            viol.append(dict(key='CS_FluorLine %d 3 %s E' % (Z, hx(max(l3, 0.1) * 1.5)), got='RadRate reports a rate for L3O45 and for L3O4/L3O5 of Z = %d' % Z, expected='the doublet carries its rate once',
+                             what='L-beta of this element counts the L3-O4,5 transition twice'))
+        lb_once = [(i, 'spec.CS_FluorLine_LBonce %s %s' % (l.split()[1], l.split()[3])) for i, l in enumerate(cl) if l.startswith('CS_FluorLine ') and l.split()[2] == '3']
+        lb_e = ctx.run_model([x for _, x in lb_once]) if lb_once else []
+        n_extra += len(lb_once)
+        # ---- hybrid oracle for the elements whose photo table violates vecOkB: library CS_Photo x specified factor (theorems *_factorises)
+        hyb = [i for i, l in enumerate(cl) if int(l.split()[1]) in badZ]
+        hyb_stats = dict(elements=sorted(badZ), calls=0, value_expected=0, inside_bad_span=0, spans_keV=[list(map(lambda v: round(v, 6), sp)) for Z in sorted(badZ) for sp in spans[Z]])
+        if hyb:
+            fac = ctx.run_model([fl[i] for i in hyb])
+            pho = ctx.run_c(sorted(set(pl[i] for i in hyb))); phd = dict(zip(sorted(set(pl[i] for i in hyb)), pho))
+            avog = float(vals['AVOGNUM']['value'])
+            awq = ['AtomicWeight %d N' % Z for Z in sorted(badZ)]
+            aw = {Z: core.parse_answer(o)['vals'][0] for Z, o in zip(sorted(badZ), ctx.run_c(awq))}
+            n_extra += len(hyb)
+            for i, fo in zip(hyb, fac):
+                l = cl[i]; t = l.split(); Z = int(t[1]); E = unhx(t[3])
+                pa = core.parse_answer(phd[pl[i]])
+                hyb_stats['calls'] += 1
+                if any(lo <= E <= hi for lo, hi in spans[Z]): hyb_stats['inside_bad_span'] += 1
+                if fo == 'fails' or not (pa['kind'] == 'ok' and pa['slot'] == 'E' and pa['vals'][0] != 0):
+                    exp = 'fails'                 # the factor fails, or the library's own CS_Photo fails: the product must fail
+                elif fo.startswith('value'):
+                    v = pa['vals'][0] * unhx(fo.split(' ')[1])
+                    if l.startswith('CSb_'): v = v * aw[Z] / avog
+                    exp = 'value ' + hx(v); hyb_stats['value_expected'] += 1
+                else: continue
+                if not core.expect_agrees(c[i], exp, rel=1e-12, stats=stats):
+                    viol.append(dict(key=l, got=c[i], expected=exp + '  (= library CS_Photo(%d, E) = %s  x  %s)' % (Z, phd[pl[i]], fo),
+                                     what='jump-ratio XRF cross section of an element whose photo table violates vecOkB: library vs library CS_Photo x specified factor'))
+        for i, (l, co, eo) in enumerate(zip(cl, c, e)):
             if eo.startswith('value'): nontriv.add(l)
             Z = int(l.split()[1])
-            if Z == 96 and 'Photo:96' in e[-1]:
-                # known data defect (C02): two photo knots of Cm are out of order near ln E[eV] = 8.295 (E ~ 4.00 keV); only THERE is the
-                # photo cross section — and with it this product — undefined; everywhere else curium is judged like any other element
-                from vlib.core import unhx as _u
-                try: E_ = _u(l.split()[-2])
-                except Exception: E_ = None
-                if E_ is not None and 3.95 <= E_ <= 4.06: continue
+            if Z in badZ:
+                # known data defect (C02): out-of-order photo knots; only inside their span is CS_Photo — and with it the full specification —
+                # undefined (the hybrid oracle above judges those calls); everywhere else the element is judged like any other
+                E_ = unhx(l.split()[-2])
+                if any(lo <= E_ <= hi for lo, hi in spans[Z]): continue
             if not core.expect_agrees(co, eo, rel=1e-11, stats=stats):
                 viol.append(dict(key=l, got=co, expected=eo, what='jump-ratio XRF cross section: library vs specification'))
-        stats.update(rule='Z (every %s) x shells [-1,5] x 29 line macros (all classes, groups, boundaries) x energies at, +-1e-9 and +-2%% around every K/L1/L2/L3 edge of the element plus fixed energies, '
-                          'for CS/CSb FluorShell/FluorLine; non-trivial = calls with a value expected' % ('Z' if ctx.tier == 'thorough' else '3rd Z, seeded offset'),
-                     distinct_nontrivial=len(nontriv), samples=[dict(call=cl[i], impl=c[i], expected=e[i]) for i in (3, len(cl) // 2, len(cl) - 2)])
-        return len(cl), viol[:200], stats
+        for (i, _), eo in zip(lb_once, lb_e):
+            Z = int(cl[i].split()[1])
+            if Z in badZ and any(lo <= unhx(cl[i].split()[-2]) <= hi for lo, hi in spans[Z]): continue
+            if not core.expect_agrees(c[i], eo, rel=1e-11, stats=stats):
+                viol.append(dict(key=cl[i], got=c[i], expected=eo + '  (every L-beta member transition counted once)', what='L-beta: library (15-line list) vs the sum with the doublet L3O45 counted once'))
+        stats.update(rule='Z (every %s, and 96) x shells [-1,5] x 29 line macros (all classes, groups, boundaries) x energies at, +-1e-9 and +-2%% around every K/L1/L2/L3 edge of the element, both ends of its photo table, '
+                          'plus fixed energies, for CS/CSb FluorShell/FluorLine; non-trivial = calls with a value expected' % ('Z' if ctx.tier == 'thorough' else '3rd Z, seeded offset'),
+                     distinct_nontrivial=len(nontriv), hybrid_oracle=hyb_stats,
+                     lbeta=dict(double_count=e_dbl, member_rates=e_mem, radrate_slot_elements=len(slot_Z), radrate_member_elements=len(memb_Z), once_counted_comparisons=len(lb_once)),
+                     samples=[dict(call=cl[i], impl=c[i], expected=e[i]) for i in (3, len(cl) // 2, len(cl) - 2)])
+        return len(cl) + n_extra, viol[:200], stats
 
 CHECK = C09()
